@@ -11,9 +11,9 @@ import (
 var blockSizes = []int{64, 200, 400, 1000, 4000}
 
 // GenScript generates a fault-free workload: nW writes/deletes of keys 0..7 with values that
-// are unique within the script, 1-4 Syncs, optionally a Close in the middle (the next write
-// reopens the file), a final Close.
-func GenScript(rng *common.Rng, idx int, minW, maxW int) Script {
+// are unique within the script, 1-4 Syncs, with probability closePct a Close in the middle (the next
+// write reopens the file), a final Close.
+func GenScript(rng *common.Rng, idx int, minW, maxW int, closePct int) Script {
 	s := Script{MBS: blockSizes[rng.Intn(len(blockSizes))]}
 	if rng.Intn(3) != 0 {
 		s.Name = fmt.Sprintf("verif/c02/s%d", idx)
@@ -41,7 +41,7 @@ func GenScript(rng *common.Rng, idx int, minW, maxW int) Script {
 	for n := 1 + rng.Intn(4); n > 0; n-- {
 		insert(Step{K: KSync, FaultJ: -1})
 	}
-	if rng.Chance(35) {
+	if rng.Chance(closePct) {
 		insert(Step{K: KClose, FaultJ: -1})
 	}
 	s.Steps = append(s.Steps, Step{K: KClose, FaultJ: -1})
